@@ -65,6 +65,29 @@ def helper_scn(rng: random.Random, frames: list[dict], cuts: dict, bursts: list[
     }
 
 
+def two_helpers_scn(rng: random.Random) -> dict:
+    """Two connections of one process at once (an application talks to many devices): each stream is cut into small pieces
+    and the pieces of the two streams alternate in time, so both helpers hold an incomplete frame at the same moments."""
+    events = []
+    for c in (0, 1):
+        frames = [{"type": pick(rng, [1, 26, 60, 127, 128, 300]), "payload_gen": [pick(rng, [0, 5, 23, 30, 127, 128, 300, 1000]), rng.getrandbits(24)]} for _ in range(rng.randint(1, 5))]
+        t = 0.1 + pick(rng, [0.0, 0.0, 0.0005, 0.001])
+        for b in rand_bursts(rng, len(frames)):
+            events.append({"at": {"t": t}, "do": "dev", "act": {"msgs": [frames[i] for i in b], "latency": 0.0, "conn": c}})
+            t += pick(rng, [0.0, 0.002, 0.01])
+    events.sort(key=lambda e: e["at"]["t"])
+    return {
+        "family": "framing",
+        "knobs": gen_knobs(rng),
+        "device": {},
+        "net": {"cuts": {"mode": "sizes", "sizes": [pick(rng, [1, 2, 3, 7, 12, 50, 128]) for _ in range(rng.randint(1, 4))], "gap": 0.001}, "d2c_latency": [0.0]},
+        "actors": [{"id": "a0", "at": {"t": 0.0}, "steps": [{"do": "fh.attach", "kind": "plaintext"}]}, {"id": "a1", "at": {"t": 0.0}, "steps": [{"do": "fh.attach", "kind": "plaintext"}]}],
+        "events": events,
+        "end": 50.0,
+        "max_turns": 200000,
+    }
+
+
 def rand_bursts(rng: random.Random, n: int) -> list[list[int]]:
     out, cur = [], []
     for i in range(n):
@@ -107,6 +130,9 @@ class C01(CheckBase):
             # one-byte dribble / tiny chunks
             frames = gen_frames(rng, short=True)
             yield helper_scn(rng, frames, {"mode": "sizes", "sizes": [pick(rng, [1, 1, 2, 3])], "gap": pick(rng, [0.0, 0.001])})
+        elif r == 5 and rng.random() < 0.5:
+            for _ in range(8):
+                yield two_helpers_scn(rng)
         elif r == 6 and rng.random() < 0.5:
             # a flood: thousands of tiny frames piled up (event-loop stall, fast sender) and handed over in one read
             n = pick(rng, [1100, 2500, 4000])
